@@ -78,13 +78,6 @@ Definition cbc_mac_input_cid (epoch seq ver : N) (cid inner : bytes) : bytes :=
 Definition cbc_mac_cid (H : hashfn) (mac_key : bytes) (epoch seq ver : N) (cid inner : bytes) : bytes :=
   hmac H mac_key (cbc_mac_input_cid epoch seq ver cid inner).
 
-(* what /repo's cbc.go hmacCID feeds to the MAC: the RFC input followed by the inner plaintext
-   a second time (defect F8; see cbc_cid_mac_input_refuted) *)
-Definition cbc_mac_input_cid_as_coded (epoch seq ver : N) (cid inner : bytes) : bytes :=
-  cbc_mac_input_cid epoch seq ver cid inner ++ inner.
-Definition cbc_mac_cid_as_coded (H : hashfn) (mac_key : bytes) (epoch seq ver : N) (cid inner : bytes) : bytes :=
-  hmac H mac_key (cbc_mac_input_cid_as_coded epoch seq ver cid inner).
-
 (* padding: "each uint8 in the padding data vector MUST be filled with the padding length value";
    the sender pads to the next multiple of the block length with padding_length in 0..block-1
    (at least the padding_length byte itself) *)
